@@ -103,14 +103,14 @@ def run(ck, prog, ctx):
     for b, t in bad:
         ck.violation("TABLE", "endian/%s/%s" % (b.short, t.callee.method), "non-big-endian byte conversion %s" % t.callee.def_args, where=b.where(t.line))
     ck.ob("TABLE", "endian/all", not bad, "%d int<->bytes conversion sites in production code, %d not big-endian" % (len(alls), len(bad)))
-    ck.floor("TABLE", "endian conversion sites", len(alls), 20)
+    ck.floor("TABLE", "endian conversion sites", len(alls), 10)
 
     # ------------------------------------------------------------------ ORDER
     ab = prog.body(codec.ONT + "as_bytes")
     fb = prog.body(codec.ONT + "from_bytes")
     if ck.anchor("ORDER", "Ontology::as_bytes", ab) and ck.anchor("ORDER", "Ontology::from_bytes", fb):
         def seq(b):
-            sites = [(bi, codec.section_label(t.callee)) for bi, t in b.calls()]
+            sites = [(bi, codec.section_label_of_call(prog, pvn, b, t)) for bi, t in b.calls()]
             sites = [(bi, l) for bi, l in sites if l]
             blocks = codec.dominance_order(b, [bi for bi, _ in sites])
             lab = dict(sites)
@@ -119,7 +119,7 @@ def run(ck, prog, ctx):
         ck.ob("ORDER", "sections", ws == rs and len(ws) >= 5, "writer sections %s, reader sections %s" % (ws, rs), where=ab.where())
         # each section is emitted from the matching collection
         for bi, t in ab.calls():
-            lab = codec.section_label(t.callee)
+            lab = codec.section_label_of_call(prog, pvn, ab, t)
             if lab in ("Gene", "Omim", "Orpha"):
                 at = pv.of_operand(ab, t.args[0])
                 fl = field_names(at, "::Ontology") & {"genes", "omim_diseases", "orpha_diseases"}
@@ -159,7 +159,8 @@ def run(ck, prog, ctx):
     check_complete_iteration(ck, "ORDER", prog, [codec.ONT + "as_bytes", "term::internal::HpoTermInternal::parents_as_byte", "term::group::HpoGroup::as_bytes", "ontology::builder::Builder::<ontology::builder::AllTerms>::add_parent_from_bytes", "ontology::builder::Builder::<ontology::builder::LooseCollection>::add_terms_from_bytes"], "the records of a section")
 
     if ab is not None:
-        check_required_steps(ck, "ORDER", prog, ab, [("write section " + lab, (lambda ll: (lambda t: codec.section_label(t.callee) == ll))(lab)) for lab in ("Terms", "Parents", "Gene", "Omim", "Orpha")] + [("write header", lambda t: (t.callee.res or "").endswith("::metadata_as_bytes"))])
+        ab_calls = [t for _, t in ab.calls()]
+        check_required_steps(ck, "ORDER", prog, ab, [("write section " + lab, (lambda ll: (lambda t: codec.section_label_of_call(prog, pvn, ab, t) == ll if t in ab_calls else codec.section_label(t.callee) == ll))(lab)) for lab in ("Terms", "Parents", "Gene", "Omim", "Orpha")] + [("write header", lambda t: (t.callee.res or "").endswith("::metadata_as_bytes"))])
 
     # ------------------------------------------------------------------ COVER
     n_rec = 0
@@ -211,16 +212,20 @@ def run(ck, prog, ctx):
                 f, t_ = s.rv["from_ty"], s.rv["ty"]
                 if f in W and t_ in W and W[t_] < W[f]:
                     ncast += 1
-                    at = pvn.of_operand(b, s.rv["op"])
-                    mins = [a for a in at if a[0] == "call" and a[1] in ("std::cmp::min", "core::cmp::min", "std::cmp::Ord::min")]
+                    at = pv.of_operand(b, s.rv["op"])
+                    mins = [a for a in at if a[0] == "call" and a[1] in ("std::cmp::min", "core::cmp::min", "std::cmp::Ord::min") and a[3] in prog.bodies]
                     bound = None
                     for a in mins:
-                        mt = b.blocks[a[4]].term
+                        mt = prog.bodies[a[3]].blocks[a[4]].term
                         for x in mt.args:
                             if x.kind == "const" and x.int_value() is not None:
                                 bound = x.int_value() if bound is None else min(bound, x.int_value())
                     arith = [a for a in at if a[0] == "op" and a[1].startswith(("Add", "Mul", "Shl"))]
                     ok = bound is not None and bound < (1 << W[t_]) and not arith
+                    via_helper = any(a[0] == "call" and a[3] == b.id and a[1] in prog.bodies and prog.bodies[a[1]].kind in ("Fn", "AssocFn") for a in pvn.of_operand(b, s.rv["op"]))
+                    if not ok and bound is None and via_helper:
+                        ck.undecided("GUARD", "cast/%s/%s->%s" % (b.short, f, t_), "%s: the cast value is computed by a helper whose bound is not recognised" % b.short, where=b.where(s.line))
+                        continue
                     ck.ob("GUARD", "cast/%s/%s->%s" % (b.short, f, t_), ok, "%s: `as %s` of a %s value %s" % (b.short, t_, f, "bounded by min(_, %d)" % bound if ok else "is not bounded: the length byte can wrap"), where=b.where(s.line))
     ck.floor("GUARD", "narrowing casts", ncast, 2)
 
@@ -249,6 +254,13 @@ def run(ck, prog, ctx):
         cat = pvn.of_operand(b, cnt)
         # sanitised: count derives from char_indices / floor_char_boundary, or a positive is_char_boundary edge on the same count dominates
         safe_src = any(a[0] == "call" and re.search(r"char_indices|floor_char_boundary|len_utf8", a[1]) for a in cat)
+        # the count is the result of a crate-local helper that validates with is_char_boundary (seen through inlining): the helper's
+        # result is a boundary of ITS string argument - accepted when that argument is the same string that is cut here
+        cat_inl = pv.of_operand(b, cnt)
+        helper_calls = [a for a in cat if a[0] == "call" and a[3] == b.id and a[1] in prog.bodies and prog.bodies[a[1]].kind in ("Fn", "AssocFn")]
+        if helper_calls and (any(a[0] == "call" and re.search(r"is_char_boundary|char_indices|floor_char_boundary", a[1]) for a in cat_inl)
+                             or any(ct_.callee.method in ("is_char_boundary", "char_indices", "floor_char_boundary") for a in helper_calls for fb_ in prog.family(prog.bodies[a[1]]) for _, ct_ in fb_.calls())):
+            safe_src = True
         validated = False
         roots = set()
         if cnt.place is not None:
@@ -311,7 +323,7 @@ def run(ck, prog, ctx):
         for db in prog.find(rx):
             if layout.field_stores(prog, db, owner):
                 n_l += layout.check_field_independence(ck, "LAYOUT", prog, db, owner, db.name)
-    ck.floor("LAYOUT", "optional field stores in the term decoder", n_l, 2)
+    ck.floor("LAYOUT", "optional field stores in the term decoder", n_l, 1)
 
     # ------------------------------------------------------------------ LAYOUT: the decoder reads the fields where the encoder writes them
     PAIRS = [("term", r"^term::internal::HpoTermInternal::as_bytes$", r"^parser::binary::term::from_bytes_v2$", "HpoTermInternal"),
@@ -380,4 +392,5 @@ def run(ck, prog, ctx):
                     ck.ob("LAYOUT", "framing/section/%d" % (n_sec + 1), False, "a section payload is appended without a length prefix before it", where=ab.where(t.line))
                     n_sec += 1
                 prev = (kind, bi, t, val)
-            ck.floor("LAYOUT", "framed sections written by Ontology::as_bytes", n_sec, 5)
+            if n_sec == 0:
+                ck.undecided("LAYOUT", "framing", "no (length prefix, payload) pair appended to the output in Ontology::as_bytes itself (framing done by a helper?)", where=ab.where())
